@@ -206,12 +206,15 @@ def checkPre (k : Nat) : Bool :=
   realPowers.stmt k || (t.id != 0 && t.id != 3 && t.id != 4 && (table t.id).isSome &&
     (TP.nodeOf 0 t).nud == Nud.prefix && (TP.nodeOf 0 t).binding + 20 == realPowers.pbp k)
 
-/-- the parser model's own table (Parser.lean, C07) agrees with the operator table regenerated from parser.go:
-    every infix / prefix operator has a token with that node name, denotation and binding -/
-theorem table_agrees : ((List.range infixOps.length).all checkOp && (List.range prefixOps.length).all checkPre) = true := by
-  decide
+/-- the parser model's own table (Parser.lean, C07 — a hand copy of astNodeMap) agrees with the operator table
+    regenerated from parser.go: every infix / prefix operator has a token with that node name, denotation and
+    binding. NOT an obligation (a harmless renumbering of the bindings in parser.go makes it false without any
+    change of behaviour): it is the HYPOTHESIS under which the theorems on `Ecal.Parse.run` speak about the code; the
+    check reports its value in the evidence (`parser_model_table_agrees`). -/
+def tablesAgree : Bool :=
+  (List.range infixOps.length).all checkOp && (List.range prefixOps.length).all checkPre
 
-theorem good_realToks : Good realToks realPowers okB okP where
+theorem good_realToks (table_agrees : tablesAgree = true) : Good realToks realPowers okB okP where
   atom n := ⟨by
       show (6 : Nat) ≠ 0 ∧ (6 : Nat) ≠ 3 ∧ (6 : Nat) ≠ 4 ∧ (table 6).isSome = true
       decide, rfl⟩
